@@ -164,6 +164,10 @@ class Check:
             exp = self.expected_error(case)
             if exp is not None and exp and i[1] not in exp:
                 return ("violation", "error class %s, expected one of %s" % (i[1], sorted(exp)))
+        if i[0] == "OK":
+            exp = self.expected_error(case)
+            if exp:
+                return ("violation", "answer returned although the input must be rejected (%s)" % sorted(exp))
         # --- tie: implementation vs model
         if model is not None and not impl.get("nomodel"):
             mdl = run.norm(model)
